@@ -7,5 +7,6 @@ import (
 	_ "verifmc/checks/c13"
 	_ "verifmc/checks/c14"
 	_ "verifmc/checks/c15"
+	_ "verifmc/checks/optplug"
 	_ "verifmc/checks/c20"
 )
